@@ -11,3 +11,742 @@ Lemma gen_index_order :
   Gen.C19.index_wrapper = "skiplist.LessThanFunc"%string /\
   Gen.C19.index_order = ["priority"; "weight"; "sender"; "nonce"]%string.
 Proof. split; reflexivity. Qed.
+
+(** ** Generic list facts *)
+
+Lemma Permutation_filter {A} (f : A -> bool) l l' :
+  Permutation l l' -> Permutation (filter f l) (filter f l').
+Proof.
+  induction 1; simpl.
+  - constructor.
+  - destruct (f x); auto.
+  - destruct (f x), (f y); auto. constructor.
+  - eapply perm_trans; eauto.
+Qed.
+
+Lemma filter_all_true {A} (f : A -> bool) l : (forall x, In x l -> f x = true) -> filter f l = l.
+Proof.
+  induction l as [|a l IH]; simpl; intros H; [reflexivity|].
+  rewrite (H a (or_introl eq_refl)). f_equal. apply IH. intros; apply H; now right.
+Qed.
+
+Lemma SS_app_cross {A} (R : A -> A -> Prop) a b :
+  StronglySorted R (a ++ b) -> forall x y, In x a -> In y b -> R x y.
+Proof.
+  induction a as [|h a IH]; simpl; intros HS x y Hx Hy; [contradiction|].
+  inversion HS as [|? ? HS' HF]; subst.
+  destruct Hx as [->|Hx].
+  - rewrite Forall_forall in HF. apply HF. apply in_or_app; now right.
+  - eapply IH; eauto.
+Qed.
+
+Lemma SS_app_l {A} (R : A -> A -> Prop) a b : StronglySorted R (a ++ b) -> StronglySorted R a.
+Proof.
+  induction a as [|h a IH]; simpl; intros HS; [constructor|].
+  inversion HS as [|? ? HS' HF]; subst. constructor; [now apply IH|].
+  rewrite Forall_forall in *. intros x Hx. apply HF. apply in_or_app; now left.
+Qed.
+
+Lemma SS_app_r {A} (R : A -> A -> Prop) a b : StronglySorted R (a ++ b) -> StronglySorted R b.
+Proof.
+  induction a as [|h a IH]; simpl; intros HS; [assumption|].
+  inversion HS; subst. now apply IH.
+Qed.
+
+Lemma app_split_mid {A} (a b o1 o2 : list A) (t : A) :
+  a ++ b = o1 ++ t :: o2 ->
+  (exists a2, a = o1 ++ t :: a2 /\ o2 = a2 ++ b) \/ (exists b1, o1 = a ++ b1 /\ b = b1 ++ t :: o2).
+Proof.
+  revert o1. induction a as [|x a IH]; simpl; intros o1 H.
+  - right. exists o1. auto.
+  - destruct o1 as [|y o1]; simpl in H.
+    + inversion H; subst. left. exists a. auto.
+    + inversion H; subst. destruct (IH _ H2) as [[a2 [E1 E2]]|[b1 [E1 E2]]].
+      * left. exists a2. subst. auto.
+      * right. exists b1. subst. auto.
+Qed.
+
+(** ** The key order *)
+
+Definition key_gt (a b : key) : Prop := key_cmp a b = Gt.
+Definition kpw (k : key) : Z * Z := (k_prio k, k_weight k).
+(** lexicographic order on (priority, weight) *)
+Definition pwle (a b : Z * Z) : Prop := fst a < fst b \/ (fst a = fst b /\ snd a <= snd b).
+Definition pwlt (a b : Z * Z) : Prop := fst a < fst b \/ (fst a = fst b /\ snd a < snd b).
+
+Ltac cmp_solve :=
+  unfold key_gt, key_cmp, lex in *; simpl in *;
+  repeat match goal with
+  | |- context [?a ?= ?b] => destruct (Z.compare_spec a b)
+  | H : context [?a ?= ?b] |- _ => destruct (Z.compare_spec a b)
+  end; subst; try discriminate; try congruence; try lia.
+
+Lemma key_cmp_eq a b : key_cmp a b = Eq <-> a = b.
+Proof.
+  destruct a as [p w s n], b as [p' w' s' n']. split; intros H.
+  - cmp_solve.
+  - inversion H; subst. unfold key_cmp, lex; simpl. now rewrite !Z.compare_refl.
+Qed.
+
+Lemma key_cmp_refl a : key_cmp a a = Eq.
+Proof. now apply key_cmp_eq. Qed.
+
+Lemma key_cmp_lt_gt a b : key_cmp a b = Lt -> key_gt b a.
+Proof. destruct a as [p w s n], b as [p' w' s' n']. intros H. cmp_solve. Qed.
+
+Lemma key_gt_trans a b c : key_gt a b -> key_gt b c -> key_gt a c.
+Proof.
+  destruct a as [p w s n], b as [p' w' s' n'], c as [p2 w2 s2 n2]. intros H1 H2. cmp_solve.
+Qed.
+
+Lemma key_gt_irrefl a : ~ key_gt a a.
+Proof. unfold key_gt. rewrite key_cmp_refl. discriminate. Qed.
+
+Lemma key_gt_pwle a b : key_gt a b -> pwle (kpw b) (kpw a).
+Proof.
+  destruct a as [p w s n], b as [p' w' s' n']. unfold pwle, kpw. intros H. cmp_solve.
+Qed.
+
+Notation psorted := (StronglySorted key_gt).
+
+Lemma psorted_NoDup l : psorted l -> NoDup l.
+Proof.
+  induction 1 as [|a l HS IH HF]; constructor; auto.
+  intros Hin. rewrite Forall_forall in HF. apply (key_gt_irrefl a). now apply HF.
+Qed.
+
+(** ** priority index operations *)
+
+Lemma pidx_set_perm k l : ~ In k l -> Permutation (pidx_set k l) (k :: l).
+Proof.
+  induction l as [|h r IH]; simpl; intros Hn; [reflexivity|].
+  destruct (key_cmp k h) eqn:E.
+  - apply key_cmp_eq in E. subst. exfalso. apply Hn. now left.
+  - eapply perm_trans; [apply perm_skip, IH|apply perm_swap]. intros Hin; apply Hn; now right.
+  - reflexivity.
+Qed.
+
+Lemma pidx_set_sorted k l : ~ In k l -> psorted l -> psorted (pidx_set k l).
+Proof.
+  induction l as [|h r IH]; simpl; intros Hn HS.
+  - constructor; constructor.
+  - inversion HS as [|? ? HS' HF]; subst.
+    destruct (key_cmp k h) eqn:E.
+    + assumption.
+    + assert (Hn' : ~ In k r) by (intros Hin; apply Hn; now right).
+      constructor; [now apply IH|].
+      rewrite Forall_forall in *. intros x Hx.
+      apply (Permutation_in _ (pidx_set_perm k r Hn')) in Hx. destruct Hx as [<-|Hx].
+      * now apply key_cmp_lt_gt.
+      * now apply HF.
+    + constructor; [assumption|]. constructor; [exact E|].
+      rewrite Forall_forall in *. intros x Hx. eapply key_gt_trans; [exact E|now apply HF].
+Qed.
+
+Lemma pidx_remove_notin k l : ~ In k l -> pidx_remove k l = l.
+Proof.
+  induction l as [|h r IH]; simpl; intros Hn; [reflexivity|].
+  destruct (key_cmp k h) eqn:E; try (f_equal; apply IH; intros Hin; apply Hn; now right).
+  apply key_cmp_eq in E. subst. exfalso. apply Hn. now left.
+Qed.
+
+Lemma pidx_remove_perm k l : In k l -> Permutation l (k :: pidx_remove k l).
+Proof.
+  induction l as [|h r IH]; simpl; intros Hin; [contradiction|].
+  destruct (key_cmp k h) eqn:E.
+  - apply key_cmp_eq in E. subst. reflexivity.
+  - destruct Hin as [->|Hin]; [rewrite key_cmp_refl in E; discriminate|].
+    eapply perm_trans; [apply perm_skip, IH, Hin|apply perm_swap].
+  - destruct Hin as [->|Hin]; [rewrite key_cmp_refl in E; discriminate|].
+    eapply perm_trans; [apply perm_skip, IH, Hin|apply perm_swap].
+Qed.
+
+Lemma pidx_remove_incl k l x : In x (pidx_remove k l) -> In x l.
+Proof.
+  induction l as [|h r IH]; simpl; [auto|].
+  destruct (key_cmp k h); simpl; intuition.
+Qed.
+
+Lemma pidx_remove_sorted k l : psorted l -> psorted (pidx_remove k l).
+Proof.
+  induction l as [|h r IH]; simpl; intros HS; [constructor|].
+  inversion HS as [|? ? HS' HF]; subst.
+  destruct (key_cmp k h); try assumption;
+    (constructor; [now apply IH|]; rewrite Forall_forall in *; intros x Hx; apply HF; eapply pidx_remove_incl; eauto).
+Qed.
+
+Lemma pidx_remove_gone k l : psorted l -> ~ In k (pidx_remove k l).
+Proof.
+  intros HS. destruct (in_dec (fun a b : key => ltac:(decide equality; apply Z.eq_dec)) k l) as [Hin|Hn].
+  - pose proof (psorted_NoDup _ HS) as ND.
+    apply (Permutation_NoDup (pidx_remove_perm k l Hin)) in ND. now inversion ND.
+  - now rewrite pidx_remove_notin.
+Qed.
+
+Lemma pidx_remove_keeps k l x : In x l -> x <> k -> In x (pidx_remove k l).
+Proof.
+  induction l as [|h r IH]; simpl; intros Hin Hne; [contradiction|].
+  destruct (key_cmp k h) eqn:E.
+  - apply key_cmp_eq in E. subst. destruct Hin; [congruence|assumption].
+  - destruct Hin; [now left|right; auto].
+  - destruct Hin; [now left|right; auto].
+Qed.
+
+(** ** sender lists *)
+
+Definition slt (a b : Z * Z) : Prop := fst a < fst b.
+Notation ssorted := (StronglySorted slt).
+
+Lemma sl_set_perm n p l : ~ In n (map fst l) -> Permutation (sl_set n p l) ((n, p) :: l).
+Proof.
+  induction l as [|[n' p'] r IH]; simpl; intros Hn; [reflexivity|].
+  destruct (Z.compare_spec n n').
+  - subst. exfalso. apply Hn. now left.
+  - reflexivity.
+  - eapply perm_trans; [apply perm_skip, IH|apply perm_swap]. intros Hin; apply Hn; now right.
+Qed.
+
+Lemma sl_set_sorted n p l : ~ In n (map fst l) -> ssorted l -> ssorted (sl_set n p l).
+Proof.
+  induction l as [|[n' p'] r IH]; simpl; intros Hn HS.
+  - constructor; constructor.
+  - inversion HS as [|? ? HS' HF]; subst.
+    destruct (Z.compare_spec n n').
+    + assumption.
+    + constructor; [assumption|]. constructor; [exact H|].
+      rewrite Forall_forall in *. intros x Hx. specialize (HF x Hx). unfold slt in *; simpl in *; lia.
+    + assert (Hn' : ~ In n (map fst r)) by (intros Hin; apply Hn; now right).
+      constructor; [now apply IH|].
+      rewrite Forall_forall in *. intros x Hx.
+      apply (Permutation_in _ (sl_set_perm n p r Hn')) in Hx. destruct Hx as [<-|Hx].
+      * exact H.
+      * now apply HF.
+Qed.
+
+Lemma ssorted_fst_eq l a b : ssorted l -> In a l -> In b l -> fst a = fst b -> a = b.
+Proof.
+  induction 1 as [|h l HS IH HF]; simpl; [contradiction|].
+  rewrite Forall_forall in HF. unfold slt in HF.
+  intros [->|Ha] [->|Hb] E; auto.
+  - specialize (HF _ Hb). lia.
+  - specialize (HF _ Ha). lia.
+Qed.
+
+Lemma sl_remove_perm n p l : ssorted l -> In (n, p) l -> Permutation l ((n, p) :: sl_remove n l).
+Proof.
+  induction 1 as [|[n' p'] l HS IH HF]; simpl; intros Hin; [contradiction|].
+  destruct (Z.eqb_spec n n').
+  - subst. destruct Hin as [E|Hin]; [inversion E; subst; reflexivity|].
+    rewrite Forall_forall in HF. specialize (HF _ Hin). unfold slt in HF; simpl in HF; lia.
+  - destruct Hin as [E|Hin]; [inversion E; congruence|].
+    eapply perm_trans; [apply perm_skip, IH, Hin|apply perm_swap].
+Qed.
+
+Lemma sl_remove_incl n l x : In x (sl_remove n l) -> In x l.
+Proof.
+  induction l as [|[n' p'] r IH]; simpl; [auto|].
+  destruct (n =? n'); simpl; intuition.
+Qed.
+
+Lemma sl_remove_sorted n l : ssorted l -> ssorted (sl_remove n l).
+Proof.
+  induction 1 as [|[n' p'] l HS IH HF]; simpl; [constructor|].
+  destruct (n =? n'); [assumption|].
+  constructor; [assumption|]. rewrite Forall_forall in *. intros x Hx. apply HF. eapply sl_remove_incl; eauto.
+Qed.
+
+(** ** association lists *)
+
+Lemma sn_eqb_spec a b : reflect (a = b) (sn_eqb a b).
+Proof.
+  destruct a as [a1 a2], b as [b1 b2]. unfold sn_eqb; simpl.
+  destruct (Z.eqb_spec a1 b1), (Z.eqb_spec a2 b2); simpl; constructor; congruence.
+Qed.
+
+Section AssocFacts.
+  Context {K V : Type} (eqb : K -> K -> bool) (eqb_spec : forall a b, reflect (a = b) (eqb a b)).
+
+  Lemma aget_aset_same k v (l : list (K * V)) : aget eqb k (aset eqb k v l) = Some v.
+  Proof.
+    induction l as [|[k' v'] r IH]; simpl.
+    - destruct (eqb_spec k k); congruence.
+    - destruct (eqb_spec k k') as [->|Hne]; simpl.
+      + destruct (eqb_spec k' k'); congruence.
+      + destruct (eqb_spec k k'); congruence.
+  Qed.
+
+  Lemma aget_aset_other k k0 v (l : list (K * V)) : k0 <> k -> aget eqb k0 (aset eqb k v l) = aget eqb k0 l.
+  Proof.
+    intros Hne. induction l as [|[k' v'] r IH]; simpl.
+    - destruct (eqb_spec k0 k); congruence.
+    - destruct (eqb_spec k k') as [->|Hne']; simpl.
+      + destruct (eqb_spec k0 k'); congruence.
+      + destruct (eqb_spec k0 k'); congruence.
+  Qed.
+
+  Lemma aget_adel_same k (l : list (K * V)) : aget eqb k (adel eqb k l) = None.
+  Proof.
+    induction l as [|[k' v'] r IH]; simpl; [reflexivity|].
+    destruct (eqb_spec k k') as [->|Hne]; simpl; [assumption|].
+    destruct (eqb_spec k k'); congruence.
+  Qed.
+
+  Lemma aget_adel_other k k0 (l : list (K * V)) : k0 <> k -> aget eqb k0 (adel eqb k l) = aget eqb k0 l.
+  Proof.
+    intros Hne. induction l as [|[k' v'] r IH]; simpl; [reflexivity|].
+    destruct (eqb_spec k k') as [->|Hne']; simpl.
+    - destruct (eqb_spec k0 k'); congruence.
+    - destruct (eqb_spec k0 k'); congruence.
+  Qed.
+
+  Lemma aget_In k v (l : list (K * V)) : aget eqb k l = Some v -> In (k, v) l.
+  Proof.
+    induction l as [|[k' v'] r IH]; simpl; [discriminate|].
+    destruct (eqb_spec k k') as [->|Hne]; intros H; [inversion H; now left|right; auto].
+  Qed.
+
+  Lemma In_aget k v (l : list (K * V)) : NoDup (map fst l) -> In (k, v) l -> aget eqb k l = Some v.
+  Proof.
+    induction l as [|[k' v'] r IH]; simpl; intros ND Hin; [contradiction|].
+    inversion ND as [|? ? Hn ND']; subst.
+    destruct Hin as [E|Hin].
+    - inversion E; subst. destruct (eqb_spec k k); congruence.
+    - destruct (eqb_spec k k') as [->|Hne]; [|auto].
+      exfalso. apply Hn. change k' with (fst (k', v)). now apply in_map.
+  Qed.
+
+  Lemma aset_keys k v (l : list (K * V)) x : In x (map fst (aset eqb k v l)) -> x = k \/ In x (map fst l).
+  Proof.
+    induction l as [|[k' v'] r IH]; simpl.
+    - intuition.
+    - destruct (eqb_spec k k') as [->|Hne]; simpl; intuition.
+  Qed.
+
+  Lemma aset_NoDup k v (l : list (K * V)) : NoDup (map fst l) -> NoDup (map fst (aset eqb k v l)).
+  Proof.
+    induction l as [|[k' v'] r IH]; simpl; intros ND.
+    - constructor; [intros []|constructor].
+    - inversion ND as [|? ? Hn ND']; subst.
+      destruct (eqb_spec k k') as [->|Hne]; simpl.
+      + constructor; assumption.
+      + constructor; [|auto]. intros Hin. apply aset_keys in Hin. destruct Hin; [congruence|contradiction].
+  Qed.
+
+  Lemma In_aset_inv k v (l : list (K * V)) k0 v0 :
+    NoDup (map fst l) -> In (k0, v0) (aset eqb k v l) -> (k0 = k /\ v0 = v) \/ (k0 <> k /\ In (k0, v0) l).
+  Proof.
+    induction l as [|[k' v'] r IH]; simpl; intros ND Hin.
+    - destruct Hin as [E|[]]. inversion E; auto.
+    - inversion ND as [|? ? Hn ND']; subst.
+      destruct (eqb_spec k k') as [->|Hne]; simpl in Hin.
+      + destruct Hin as [E|Hin]; [inversion E; auto|].
+        right. split; [|now right]. intros ->. apply Hn. change k' with (fst (k', v0)). now apply in_map.
+      + destruct Hin as [E|Hin]; [inversion E; subst; right; split; [congruence|now left]|].
+        destruct (IH ND' Hin) as [?|[? ?]]; [now left|right; split; [assumption|now right]].
+  Qed.
+End AssocFacts.
+
+Definition Zeqb_spec := Z.eqb_spec.
+
+(** ** flatten of the sender indices *)
+
+Definition flatten (m : list (Z * slist)) : list tx := flat_map (fun sl => tag (fst sl) (snd sl)) m.
+
+Lemma tag_app s a b : tag s (a ++ b) = tag s a ++ tag s b.
+Proof. unfold tag. now rewrite map_app. Qed.
+
+Lemma tag_In s l t : In t (tag s l) <-> tx_sender t = s /\ In (tx_nonce t, tx_prio t) l.
+Proof.
+  unfold tag. rewrite in_map_iff. destruct t as [[s' n'] p']. unfold tx_sender, tx_nonce, tx_prio; simpl. split.
+  - intros [[n p] [E Hin]]. inversion E; subst. auto.
+  - intros [<- Hin]. exists (n', p'). auto.
+Qed.
+
+Lemma sget_cases s (m : list (Z * slist)) : sget s m = [] \/ In (s, sget s m) m.
+Proof.
+  unfold sget. destruct (aget Z.eqb s m) eqn:E; [right|now left].
+  eapply aget_In; eauto. exact Z.eqb_spec.
+Qed.
+
+Lemma sget_In s l (m : list (Z * slist)) : NoDup (map fst m) -> In (s, l) m -> sget s m = l.
+Proof.
+  intros ND Hin. unfold sget. now rewrite (In_aget Z.eqb Z.eqb_spec s l m ND Hin).
+Qed.
+
+Lemma sget_aset_same s v m : sget s (aset Z.eqb s v m) = v.
+Proof. unfold sget. now rewrite (aget_aset_same Z.eqb Z.eqb_spec). Qed.
+
+Lemma sget_aset_other s s0 v m : s0 <> s -> sget s0 (aset Z.eqb s v m) = sget s0 m.
+Proof. intros. unfold sget. now rewrite (aget_aset_other Z.eqb Z.eqb_spec). Qed.
+
+Lemma flatten_aset s v m :
+  Permutation (tag s (sget s m) ++ flatten (aset Z.eqb s v m)) (tag s v ++ flatten m).
+Proof.
+  induction m as [|[k' v'] r IH]; simpl.
+  - unfold sget; simpl. rewrite app_nil_r. reflexivity.
+  - unfold sget in *. simpl. destruct (Z.eqb_spec s k') as [->|Hne]; simpl.
+    + rewrite !app_assoc. apply Permutation_app_tail. apply Permutation_app_comm.
+    + eapply perm_trans; [|apply Permutation_app_swap_app].
+      eapply perm_trans; [apply Permutation_app_swap_app|].
+      apply Permutation_app_head. exact IH.
+Qed.
+
+Lemma flatten_In t m : In t (flatten m) -> exists l, In (tx_sender t, l) m /\ In (tx_nonce t, tx_prio t) l.
+Proof.
+  unfold flatten. rewrite in_flat_map. intros [[s l] [Hin Ht]]. simpl in Ht.
+  apply tag_In in Ht. destruct Ht as [<- Ht]. eauto.
+Qed.
+
+Lemma In_flatten s l e m : In (s, l) m -> In e l -> In (s, fst e, snd e) (flatten m).
+Proof.
+  intros Hm He. unfold flatten. rewrite in_flat_map. exists (s, l). split; [assumption|].
+  simpl. unfold tag. rewrite in_map_iff. exists e. auto.
+Qed.
+
+(** ** The invariant: the four structures are in step with the pending set *)
+
+Definition key_tx (k : key) : tx := (k_sender k, k_nonce k, k_prio k).
+
+Record Inv (st : state) (pd : list tx) : Prop := {
+  inv_nodup : NoDup (map tx_sn pd);
+  inv_sorted : psorted (pidx st);
+  inv_sc1 : forall k, In k (pidx st) ->
+      aget sn_eqb (k_sender k, k_nonce k) (scores st) = Some (k_prio k, k_weight k);
+  inv_sc2 : forall s n p w, aget sn_eqb (s, n) (scores st) = Some (p, w) -> In (mkKey p w s n) (pidx st);
+  inv_pperm : Permutation (map key_tx (pidx st)) pd;
+  inv_skeys : NoDup (map fst (sidx st));
+  inv_ssorted : forall s sl, In (s, sl) (sidx st) -> ssorted sl;
+  inv_sperm : Permutation (flatten (sidx st)) pd
+}.
+
+Lemma Inv_init : Inv init [].
+Proof.
+  constructor; simpl; try constructor; try (intros; contradiction); try discriminate.
+Qed.
+
+Lemma pd_sn_unique pd t1 t2 : NoDup (map tx_sn pd) -> In t1 pd -> In t2 pd -> tx_sn t1 = tx_sn t2 -> t1 = t2.
+Proof.
+  induction pd as [|a pd IH]; simpl; intros ND H1 H2 E; [contradiction|].
+  inversion ND as [|? ? Hn ND']; subst.
+  destruct H1 as [->|H1], H2 as [->|H2]; auto.
+  - exfalso. apply Hn. rewrite E. now apply in_map.
+  - exfalso. apply Hn. rewrite <- E. now apply in_map.
+Qed.
+
+Section InvFacts.
+  Variables (st : state) (pd : list tx).
+  Hypothesis HI : Inv st pd.
+
+  Lemma inv_key_in_pd k : In k (pidx st) -> In (key_tx k) pd.
+  Proof. intros H. eapply Permutation_in; [apply (inv_pperm _ _ HI)|]. now apply in_map. Qed.
+
+  Lemma inv_pd_key t : In t pd -> exists k, In k (pidx st) /\ key_tx k = t.
+  Proof.
+    intros H. apply (Permutation_in _ (Permutation_sym (inv_pperm _ _ HI))) in H.
+    apply in_map_iff in H. destruct H as [k [E Hk]]. eauto.
+  Qed.
+
+  Lemma inv_key_sn_unique k1 k2 :
+    In k1 (pidx st) -> In k2 (pidx st) -> k_sender k1 = k_sender k2 -> k_nonce k1 = k_nonce k2 -> k1 = k2.
+  Proof.
+    intros H1 H2 Es En.
+    pose proof (inv_sc1 _ _ HI _ H1) as S1. pose proof (inv_sc1 _ _ HI _ H2) as S2.
+    rewrite Es, En in S1. rewrite S1 in S2. destruct k1, k2; simpl in *. inversion S2; subst. reflexivity.
+  Qed.
+
+  Lemma inv_scores_none s n : ~ In (s, n) (map tx_sn pd) -> aget sn_eqb (s, n) (scores st) = None.
+  Proof.
+    intros Hn. destruct (aget sn_eqb (s, n) (scores st)) as [[p w]|] eqn:E; [|reflexivity].
+    exfalso. apply Hn. apply (inv_sc2 _ _ HI) in E. apply inv_key_in_pd in E.
+    apply in_map_iff. exists (key_tx (mkKey p w s n)). split; [reflexivity|assumption].
+  Qed.
+
+  Lemma inv_entry_in_pd s sl e : In (s, sl) (sidx st) -> In e sl -> In (s, fst e, snd e) pd.
+  Proof.
+    intros Hs He. eapply Permutation_in; [apply (inv_sperm _ _ HI)|]. eapply In_flatten; eauto.
+  Qed.
+
+  Lemma inv_pd_entry t : In t pd -> In (tx_sender t, sget (tx_sender t) (sidx st)) (sidx st) /\
+                                   In (tx_nonce t, tx_prio t) (sget (tx_sender t) (sidx st)).
+  Proof.
+    intros H. apply (Permutation_in _ (Permutation_sym (inv_sperm _ _ HI))) in H.
+    apply flatten_In in H. destruct H as [l [Hl He]].
+    rewrite (sget_In _ _ _ (inv_skeys _ _ HI) Hl). auto.
+  Qed.
+End InvFacts.
+
+Lemma remove_one_filter pd s n p X :
+  NoDup (map tx_sn pd) -> Permutation pd ((s, n, p) :: X) ->
+  Permutation X (filter (fun t => negb (sn_eqb (tx_sn t) (s, n))) pd).
+Proof.
+  intros ND HP.
+  pose proof (Permutation_filter (fun t => negb (sn_eqb (tx_sn t) (s, n))) _ _ HP) as HF.
+  cbn [filter] in HF.
+  assert (E0 : sn_eqb (tx_sn (s, n, p)) (s, n) = true).
+  { destruct (sn_eqb_spec (tx_sn (s, n, p)) (s, n)) as [|Hne]; [reflexivity|exfalso; apply Hne; reflexivity]. }
+  rewrite E0 in HF. cbn [negb] in HF.
+  rewrite (filter_all_true _ X) in HF; [now apply Permutation_sym|].
+  intros x Hx. destruct (sn_eqb_spec (tx_sn x) (s, n)) as [E|]; [|reflexivity].
+  exfalso. assert (ND' : NoDup (map tx_sn ((s, n, p) :: X))).
+  { eapply Permutation_NoDup; [apply Permutation_map, HP|assumption]. }
+  cbn [map] in ND'. inversion ND' as [|? ? Hn _]; subst. apply Hn.
+  change (tx_sn (s, n, p)) with (s, n). rewrite <- E. now apply in_map.
+Qed.
+
+Lemma Inv_insert st pd s n p :
+  Inv st pd -> ~ In (s, n) (map tx_sn pd) -> Inv (insert s n p st) (pd ++ [(s, n, p)]).
+Proof.
+  intros HI Hn. unfold insert. rewrite (inv_scores_none _ _ HI _ _ Hn).
+  set (k0 := mkKey p 0 s n).
+  assert (Hk0 : ~ In k0 (pidx st)).
+  { intros Hin. apply Hn. apply (inv_key_in_pd _ _ HI) in Hin. apply in_map_iff. exists (key_tx k0). auto. }
+  assert (Hnn : ~ In n (map fst (sget s (sidx st)))).
+  { intros Hin. apply in_map_iff in Hin. destruct Hin as [[n' p'] [E Hin]]. simpl in E. subst n'.
+    destruct (sget_cases s (sidx st)) as [E|Hs]; [rewrite E in Hin; contradiction|].
+    apply Hn. pose proof (inv_entry_in_pd _ _ HI _ _ _ Hs Hin) as Hp. simpl in Hp.
+    apply in_map_iff. exists (s, n, p'). auto. }
+  constructor; simpl.
+  - rewrite map_app. simpl. apply (Permutation_NoDup (Permutation_cons_append _ _)).
+    constructor; [exact Hn|apply (inv_nodup _ _ HI)].
+  - apply pidx_set_sorted; [assumption|apply (inv_sorted _ _ HI)].
+  - intros k Hin. apply (Permutation_in _ (pidx_set_perm _ _ Hk0)) in Hin. destruct Hin as [<-|Hin].
+    + simpl. apply (aget_aset_same sn_eqb sn_eqb_spec).
+    + rewrite (aget_aset_other sn_eqb sn_eqb_spec); [now apply (inv_sc1 _ _ HI)|].
+      intros E. inversion E. apply Hn. apply (inv_key_in_pd _ _ HI) in Hin.
+      apply in_map_iff. exists (key_tx k). split; [|assumption]. unfold tx_sn, key_tx; simpl. congruence.
+  - intros s' n' p' w' H.
+    apply (Permutation_in _ (Permutation_sym (pidx_set_perm _ _ Hk0))).
+    destruct (sn_eqb_spec (s', n') (s, n)) as [E|Hne].
+    + inversion E; subst. rewrite (aget_aset_same sn_eqb sn_eqb_spec) in H. inversion H; subst. now left.
+    + rewrite (aget_aset_other sn_eqb sn_eqb_spec) in H by assumption. right. now apply (inv_sc2 _ _ HI).
+  - eapply perm_trans; [apply Permutation_map, pidx_set_perm, Hk0|]. simpl.
+    eapply perm_trans; [apply perm_skip, (inv_pperm _ _ HI)|]. apply Permutation_cons_append.
+  - apply (aset_NoDup Z.eqb Z.eqb_spec), (inv_skeys _ _ HI).
+  - intros s' sl' Hin. apply (In_aset_inv Z.eqb Z.eqb_spec) in Hin; [|apply (inv_skeys _ _ HI)].
+    destruct Hin as [[-> ->]|[_ Hin]]; [|now apply (inv_ssorted _ _ HI) in Hin].
+    apply sl_set_sorted; [assumption|].
+    destruct (sget_cases s (sidx st)) as [E|Hs]; [rewrite E; constructor|now apply (inv_ssorted _ _ HI) in Hs].
+  - pose proof (flatten_aset s (sl_set n p (sget s (sidx st))) (sidx st)) as HF.
+    assert (HT : Permutation (tag s (sl_set n p (sget s (sidx st)))) ((s, n, p) :: tag s (sget s (sidx st)))).
+    { unfold tag. apply (Permutation_map (fun e => (s, fst e, snd e))) in HF || idtac.
+      eapply perm_trans; [apply Permutation_map, sl_set_perm, Hnn|]. reflexivity. }
+    eapply perm_trans in HF; [|apply Permutation_sym; reflexivity].
+    assert (HF2 : Permutation (tag s (sget s (sidx st)) ++ flatten (aset Z.eqb s (sl_set n p (sget s (sidx st))) (sidx st)))
+                              (tag s (sget s (sidx st)) ++ (s, n, p) :: flatten (sidx st))).
+    { eapply perm_trans; [exact HF|]. eapply perm_trans; [apply Permutation_app_tail, HT|]. simpl.
+      apply Permutation_middle. }
+    apply Permutation_app_inv_l in HF2.
+    eapply perm_trans; [exact HF2|]. eapply perm_trans; [apply perm_skip, (inv_sperm _ _ HI)|].
+    apply Permutation_cons_append.
+Qed.
+
+Lemma Inv_remove st pd s n :
+  Inv st pd -> Inv (fst (remove s n st)) (pend_step pd (Remove s n)).
+Proof.
+  intros HI. unfold remove. simpl pend_step.
+  destruct (aget sn_eqb (s, n) (scores st)) as [[p w]|] eqn:Esc.
+  2:{ simpl. rewrite filter_all_true; [assumption|].
+      intros t Ht. destruct (sn_eqb_spec (tx_sn t) (s, n)) as [E|]; [|reflexivity]. exfalso.
+      destruct (inv_pd_key _ _ HI _ Ht) as [k [Hk Ek]]. pose proof (inv_sc1 _ _ HI _ Hk) as S.
+      subst t. unfold tx_sn, key_tx in E. simpl in E. inversion E; subst. congruence. }
+  pose proof (inv_sc2 _ _ HI _ _ _ _ Esc) as Hk0. set (k0 := mkKey p w s n) in *.
+  pose proof (inv_key_in_pd _ _ HI _ Hk0) as Hpd. unfold key_tx in Hpd; simpl in Hpd.
+  destruct (inv_pd_entry _ _ HI _ Hpd) as [Hs He]. unfold tx_sender, tx_nonce, tx_prio in Hs, He; simpl in Hs, He.
+  assert (Eg : aget Z.eqb s (sidx st) = Some (sget s (sidx st))).
+  { apply (In_aget Z.eqb Z.eqb_spec); [apply (inv_skeys _ _ HI)|assumption]. }
+  rewrite Eg. simpl. set (sl := sget s (sidx st)) in *.
+  pose proof (inv_ssorted _ _ HI _ _ Hs) as Hsl.
+  assert (HP1 : Permutation pd ((s, n, p) :: map key_tx (pidx_remove k0 (pidx st)))).
+  { eapply perm_trans; [apply Permutation_sym, (inv_pperm _ _ HI)|].
+    apply (Permutation_map key_tx (pidx_remove_perm _ _ Hk0)). }
+  assert (HP2 : Permutation pd ((s, n, p) :: flatten (aset Z.eqb s (sl_remove n sl) (sidx st)))).
+  { eapply perm_trans; [apply Permutation_sym, (inv_sperm _ _ HI)|].
+    pose proof (flatten_aset s (sl_remove n sl) (sidx st)) as HF. fold sl in HF.
+    assert (HT : Permutation (tag s sl) ((s, n, p) :: tag s (sl_remove n sl))).
+    { unfold tag. apply (Permutation_map (fun e => (s, fst e, snd e)) (sl_remove_perm n p sl Hsl He)). }
+    assert (HF2 : Permutation (tag s (sl_remove n sl) ++ (s, n, p) :: flatten (aset Z.eqb s (sl_remove n sl) (sidx st)))
+                              (tag s (sl_remove n sl) ++ flatten (sidx st))).
+    { eapply perm_trans; [|exact HF]. eapply perm_trans; [apply Permutation_sym, Permutation_middle|].
+      apply (Permutation_app_tail _ (Permutation_sym HT)). }
+    apply Permutation_app_inv_l in HF2. now apply Permutation_sym. }
+  pose proof (inv_nodup _ _ HI) as ND.
+  constructor; simpl.
+  - apply (Permutation_NoDup (Permutation_map tx_sn (remove_one_filter _ _ _ _ _ ND HP1))).
+    assert (ND' : NoDup (map tx_sn ((s, n, p) :: map key_tx (pidx_remove k0 (pidx st))))).
+    { eapply Permutation_NoDup; [apply Permutation_map, HP1|assumption]. }
+    now inversion ND'.
+  - apply pidx_remove_sorted, (inv_sorted _ _ HI).
+  - intros k Hin. assert (Hne : k <> k0).
+    { intros ->. revert Hin. apply pidx_remove_gone, (inv_sorted _ _ HI). }
+    apply pidx_remove_incl in Hin.
+    rewrite (aget_adel_other sn_eqb sn_eqb_spec); [now apply (inv_sc1 _ _ HI)|].
+    intros E. inversion E. apply Hne. apply (inv_key_sn_unique _ _ HI); auto.
+  - intros s' n' p' w' H. destruct (sn_eqb_spec (s', n') (s, n)) as [E|Hne].
+    + inversion E; subst. rewrite (aget_adel_same sn_eqb sn_eqb_spec) in H. discriminate.
+    + rewrite (aget_adel_other sn_eqb sn_eqb_spec) in H by assumption.
+      apply pidx_remove_keeps; [now apply (inv_sc2 _ _ HI)|]. unfold k0. intros E. inversion E; subst. congruence.
+  - apply (remove_one_filter _ _ _ _ _ ND HP1).
+  - apply (aset_NoDup Z.eqb Z.eqb_spec), (inv_skeys _ _ HI).
+  - intros s' sl' Hin. apply (In_aset_inv Z.eqb Z.eqb_spec) in Hin; [|apply (inv_skeys _ _ HI)].
+    destruct Hin as [[-> ->]|[_ Hin]]; [|now apply (inv_ssorted _ _ HI) in Hin].
+    now apply sl_remove_sorted.
+  - apply (remove_one_filter _ _ _ _ _ ND HP2).
+Qed.
+
+(** *** reorderPriorityTies keeps the structures in step (whatever weights it computes) *)
+
+Record PInv (pi : list key) (sc : list ((Z * Z) * (Z * Z))) (pd : list tx) : Prop := {
+  pinv_sorted : psorted pi;
+  pinv_sc1 : forall k, In k pi -> aget sn_eqb (k_sender k, k_nonce k) sc = Some (k_prio k, k_weight k);
+  pinv_sc2 : forall s n p w, aget sn_eqb (s, n) sc = Some (p, w) -> In (mkKey p w s n) pi;
+  pinv_pperm : Permutation (map key_tx pi) pd
+}.
+
+Definition same_tx (dk ik : key) : Prop :=
+  k_prio ik = k_prio dk /\ k_sender ik = k_sender dk /\ k_nonce ik = k_nonce dk.
+
+Lemma PInv_sn_unique pi sc pd k1 k2 :
+  PInv pi sc pd -> In k1 pi -> In k2 pi -> k_sender k1 = k_sender k2 -> k_nonce k1 = k_nonce k2 -> k1 = k2.
+Proof.
+  intros HP H1 H2 Es En.
+  pose proof (pinv_sc1 _ _ _ HP _ H1) as S1. pose proof (pinv_sc1 _ _ _ HP _ H2) as S2.
+  rewrite Es, En in S1. rewrite S1 in S2. destruct k1, k2; simpl in *. inversion S2; subst. reflexivity.
+Qed.
+
+Lemma PInv_step pi sc pd dk ik :
+  PInv pi sc pd -> In dk pi -> same_tx dk ik -> PInv (fst (reorder_step (pi, sc) (dk, ik))) (snd (reorder_step (pi, sc) (dk, ik))) pd.
+Proof.
+  intros HP Hdk [Ep [Es En]]. simpl.
+  assert (Hik : ~ In ik (pidx_remove dk pi)).
+  { intros Hin. pose proof (pidx_remove_incl _ _ _ Hin) as Hin'.
+    assert (ik = dk) by (apply (PInv_sn_unique _ _ _ _ _ HP); auto). subst ik.
+    revert Hin. apply pidx_remove_gone, (pinv_sorted _ _ _ HP). }
+  constructor.
+  - apply pidx_set_sorted; [assumption|]. apply pidx_remove_sorted, (pinv_sorted _ _ _ HP).
+  - intros k Hin. apply (Permutation_in _ (pidx_set_perm _ _ Hik)) in Hin. destruct Hin as [<-|Hin].
+    + apply (aget_aset_same sn_eqb sn_eqb_spec).
+    + assert (Hne : k <> dk) by (intros ->; revert Hin; apply pidx_remove_gone, (pinv_sorted _ _ _ HP)).
+      apply pidx_remove_incl in Hin.
+      assert (Hsn : (k_sender k, k_nonce k) <> (k_sender dk, k_nonce dk)).
+      { intros E. inversion E. apply Hne. apply (PInv_sn_unique _ _ _ _ _ HP); auto. }
+      rewrite (aget_aset_other sn_eqb sn_eqb_spec) by (rewrite Es, En; exact Hsn).
+      rewrite (aget_adel_other sn_eqb sn_eqb_spec) by exact Hsn.
+      now apply (pinv_sc1 _ _ _ HP).
+  - intros s n p w H. apply (Permutation_in _ (Permutation_sym (pidx_set_perm _ _ Hik))).
+    destruct (sn_eqb_spec (s, n) (k_sender ik, k_nonce ik)) as [E|Hne].
+    + inversion E; subst. rewrite (aget_aset_same sn_eqb sn_eqb_spec) in H. inversion H; subst. left. now destruct ik.
+    + rewrite (aget_aset_other sn_eqb sn_eqb_spec) in H by assumption.
+      rewrite (aget_adel_other sn_eqb sn_eqb_spec) in H by (rewrite <- Es, <- En; exact Hne).
+      right. apply pidx_remove_keeps; [now apply (pinv_sc2 _ _ _ HP)|].
+      intros E. apply Hne. rewrite Es, En, <- E. reflexivity.
+  - eapply perm_trans; [apply Permutation_map, pidx_set_perm, Hik|]. simpl.
+    replace (key_tx ik) with (key_tx dk) by (unfold key_tx; congruence).
+    eapply perm_trans; [|apply (pinv_pperm _ _ _ HP)].
+    apply Permutation_sym. apply (Permutation_map key_tx (pidx_remove_perm _ _ Hdk)).
+Qed.
+
+Definition key_sn (k : key) : Z * Z := (k_sender k, k_nonce k).
+
+Lemma PInv_fold todo : forall pi sc pd,
+  PInv pi sc pd ->
+  (forall dk ik, In (dk, ik) todo -> In dk pi /\ same_tx dk ik) ->
+  NoDup (map (fun di => key_sn (fst di)) todo) ->
+  PInv (fst (fold_left reorder_step todo (pi, sc))) (snd (fold_left reorder_step todo (pi, sc))) pd.
+Proof.
+  induction todo as [|[dk ik] todo IH]; intros pi sc pd HP Htodo ND; [exact HP|].
+  cbn [fold_left]. destruct (Htodo dk ik (or_introl eq_refl)) as [Hdk Hsame].
+  pose proof (PInv_step _ _ _ _ _ HP Hdk Hsame) as HP'.
+  destruct (reorder_step (pi, sc) (dk, ik)) as [pi' sc'] eqn:Est. cbn [fst snd] in HP'.
+  apply IH; [assumption| |now inversion ND].
+  intros dk' ik' Hin. destruct (Htodo dk' ik' (or_intror Hin)) as [Hdk' Hsame']. split; [|assumption].
+  inversion ND as [|? ? Hn ND']; subst.
+  assert (Hne : dk' <> dk).
+  { intros ->. apply Hn. apply in_map_iff. exists (dk, ik'). auto. }
+  unfold reorder_step in Est. inversion Est; subst.
+  apply (@Permutation_in _ (ik :: pidx_remove dk pi) _ dk').
+  - apply Permutation_sym, pidx_set_perm.
+    intros Hin2. pose proof (pidx_remove_incl _ _ _ Hin2) as Hin3. destruct Hsame as [? [? ?]].
+    assert (ik = dk) by (apply (PInv_sn_unique _ _ _ _ _ HP); auto). subst ik.
+    revert Hin2. apply pidx_remove_gone, (pinv_sorted _ _ _ HP).
+  - right. now apply pidx_remove_keeps.
+Qed.
+
+Lemma reorder_list_spec st :
+  forall dk ik, In (dk, ik) (reorder_list st) -> In dk (pidx st) /\ same_tx dk ik.
+Proof.
+  intros dk ik. unfold reorder_list. rewrite in_flat_map. intros [k [Hk Hin]].
+  destruct (1 <? cnt_get (k_prio k) (pcounts st)); simpl in Hin; [|contradiction].
+  destruct Hin as [E|[]]. inversion E; subst. split; [assumption|]. unfold same_tx; simpl; auto.
+Qed.
+
+Lemma flat_map_opt_NoDup {A B C} (g : B -> C) (h : A -> C) (f : A -> list B) (l : list A) :
+  (forall a b, In b (f a) -> g b = h a) -> (forall a, (List.length (f a) <= 1)%nat) ->
+  NoDup (map h l) -> NoDup (map g (flat_map f l)).
+Proof.
+  intros Hg Hlen. induction l as [|a l IH]; simpl; intros ND; [constructor|].
+  inversion ND as [|? ? Hn ND']; subst. rewrite map_app.
+  specialize (Hlen a). pose proof (Hg a) as Hga.
+  destruct (f a) as [|b [|b' r]]; simpl in *; [now apply IH| |lia].
+  constructor; [|now apply IH]. rewrite (Hga b (or_introl eq_refl)).
+  intros Hin. apply Hn. apply in_map_iff in Hin. destruct Hin as [b2 [E Hb2]].
+  apply in_flat_map in Hb2. destruct Hb2 as [a2 [Ha2 Hb2]]. rewrite (Hg _ _ Hb2) in E. rewrite <- E. now apply in_map.
+Qed.
+
+Lemma Inv_key_sn_NoDup st pd : Inv st pd -> NoDup (map key_sn (pidx st)).
+Proof.
+  intros HI. pose proof (inv_nodup _ _ HI) as ND.
+  apply (Permutation_NoDup (Permutation_map tx_sn (Permutation_sym (inv_pperm _ _ HI)))) in ND.
+  rewrite map_map in ND. exact ND.
+Qed.
+
+Lemma Inv_reorder st pd : Inv st pd -> Inv (reorder st) pd.
+Proof.
+  intros HI. unfold reorder.
+  assert (HP : PInv (pidx st) (scores st) pd).
+  { constructor; [apply (inv_sorted _ _ HI)|apply (inv_sc1 _ _ HI)|apply (inv_sc2 _ _ HI)|apply (inv_pperm _ _ HI)]. }
+  pose proof (PInv_fold (reorder_list st) _ _ _ HP (reorder_list_spec st)) as HF.
+  assert (ND : NoDup (map (fun di => key_sn (fst di)) (reorder_list st))).
+  { unfold reorder_list. apply flat_map_opt_NoDup with (h := key_sn).
+    - intros a b Hb. destruct (1 <? cnt_get (k_prio a) (pcounts st)); simpl in Hb; [|contradiction].
+      destruct Hb as [<-|[]]. reflexivity.
+    - intros a. destruct (1 <? cnt_get (k_prio a) (pcounts st)); simpl; lia.
+    - now apply (Inv_key_sn_NoDup _ pd). }
+  specialize (HF ND).
+  destruct (fold_left reorder_step (reorder_list st) (pidx st, scores st)) as [pi sc]. cbn [fst snd] in HF.
+  constructor; simpl;
+    [apply (inv_nodup _ _ HI)|apply (pinv_sorted _ _ _ HF)|apply (pinv_sc1 _ _ _ HF)|apply (pinv_sc2 _ _ _ HF)
+    |apply (pinv_pperm _ _ _ HF)|apply (inv_skeys _ _ HI)|apply (inv_ssorted _ _ HI)|apply (inv_sperm _ _ HI)].
+Qed.
+
+Lemma Inv_select_op st pd : Inv st pd -> Inv (fst (select_op st)) pd.
+Proof.
+  intros HI. unfold select_op. destruct (pidx st) eqn:E; [exact HI|]. simpl. now apply Inv_reorder.
+Qed.
+
+Lemma Inv_step st pd o :
+  Inv st pd -> match o with Insert s n _ => ~ In (s, n) (map tx_sn pd) | _ => True end ->
+  Inv (step st o) (pend_step pd o).
+Proof.
+  intros HI Hu. destruct o as [s n p|s n|]; simpl step.
+  - now apply Inv_insert.
+  - now apply Inv_remove.
+  - now apply Inv_select_op.
+Qed.
+
+Lemma Inv_fold ops : forall st pd,
+  Inv st pd -> uniq_from pd ops -> Inv (fold_left step ops st) (fold_left pend_step ops pd).
+Proof.
+  induction ops as [|o ops IH]; intros st pd HI Hu; [exact HI|].
+  destruct Hu as [Hu1 Hu2]. cbn [fold_left]. apply IH; [|assumption]. now apply Inv_step.
+Qed.
+
+Lemma Inv_run ops : unique_sender_nonce ops -> Inv (run ops) (pending ops).
+Proof. intros Hu. apply Inv_fold; [apply Inv_init|exact Hu]. Qed.
+
+(** *** CountTx *)
+Lemma count_eq_pending_proof ops :
+  unique_sender_nonce ops -> count (run ops) = Z.of_nat (List.length (pending ops)).
+Proof.
+  intros Hu. pose proof (Inv_run ops Hu) as HI. unfold count. f_equal.
+  rewrite <- (Permutation_length (inv_pperm _ _ HI)). now rewrite map_length.
+Qed.
